@@ -88,3 +88,24 @@ Example C06_zero_pool_stuck_state :
   let s := (frun 200 (init Pz 0 1) []).1 in
   s.(qs) = Pending /\ s.(insched) = 2 /\ stacks s !! 0 = Some [FPark 2; FTop []] /\ length s.(jobs) = 2.
 Proof. vm_compute. done. Qed.
+(* the hypotheses of C06_zero_pool_full are satisfiable: a run of the generated tables in which the awaiting caller is parked on a
+   future whose job waits for event 0 (the queue is in WaitingForPoll), is woken through the DoubleWaker when caller 1 fires the
+   event, drains the queue itself and finishes *)
+Definition Pz_ok := [[ODesync; OFuture [PAwait 0; PTouch] UAwait; OFuture [] UDetach]; [OFire 0]].
+Example C06_zero_pool_nonvacuous :
+  exists tr s, await_only [ODesync; OFuture [PAwait 0; PTouch] UAwait; OFuture [] UDetach] /\ Forall fire_only [[OFire 0]] /\
+    run G (init Pz_ok 0 1) tr = Some s /\ terminal G s /\ all_fired s /\ stacks s !! 0 = Some [FTop []] /\
+    (exists tr1 s1, run G (init Pz_ok 0 1) tr1 = Some s1 /\ s1.(qs) = WaitingForPoll 0 /\ exists rest, stacks s1 !! 0 = Some (FPark 0 :: rest)).
+Proof.
+  pose (r := frun 200 (init Pz_ok 0 1) []). exists r.2, r.1.
+  split; [repeat constructor|]. split; [repeat constructor|].
+  split; [vm_compute; reflexivity|]. split; [apply terminal_check; vm_compute; reflexivity|].
+  split; [apply all_fired_check; vm_compute; reflexivity|]. split; [vm_compute; reflexivity|].
+  exists (replicate 20 0). eexists. split; [vm_compute; reflexivity|]. vm_compute. split; [reflexivity|]. eexists. reflexivity.
+Qed.
+(* the zero-pool theorem instantiated with the generated tables *)
+Example C06_zero_pool_generated sc0 others nev tr s : await_only sc0 -> Forall fire_only others ->
+  run G (init (sc0 :: others) 0 nev) tr = Some s -> terminal G s -> all_fired s -> stacks s !! 0 = Some [FTop []].
+Proof. apply C06_zero_pool_main; [apply gen_all_cond|apply gen_zero_cond]. Qed.
+Print Assumptions C06_zero_pool_nonvacuous.
+Print Assumptions C06_zero_pool_generated.
